@@ -255,6 +255,29 @@ Theorem C12_concrete_nonvacuous :
   caddr_ok H0 G0 (M10.ARaw M10.Main M10.P2pkh (repeat 0%N 20)).
 Proof. exact caddr_ok_nonvacuous. Qed.
 
+(** ** The recipient predicates computed by the model ([shape_memo] / [shape_tonly] of Spec.v: from the
+    address kind and, for a unified address, the typecodes of its receivers; unknown typecodes are neither
+    shielded nor transparent).  [c_can_memo] / [c_t_only] are these functions on C10 address values; the
+    harness compares them with the real [can_receive_memo] / [is_transparent_only] on every pooled
+    address (case kind AddrFlags) and never ships the implementation's answers to the model. *)
+Theorem C12_unknown_receivers_not_shielded : forall tcs,
+  existsb transparent_tc tcs = true -> forallb (fun tc => negb (shielded_tc tc)) tcs = true ->
+  shape_tonly (SUnified tcs) = true /\ shape_memo (SUnified tcs) = false.
+Proof. exact unknown_receivers_not_shielded. Qed.
+(** acceptance conditions: no accepted payment carries a memo to a recipient that cannot receive one, and
+    none is a zero-valued output to a transparent-only recipient *)
+Theorem C12_concrete_acceptance : forall H G uri (r : request M10.addr),
+  from_uri M10.addr (c_dec H G) c_can_memo c_t_only uri = Ok r ->
+  Forall (fun ip => let p := snd ip in
+                    (p_memo p <> None -> c_can_memo (p_addr p) = true) /\
+                    ~ (c_t_only (p_addr p) = true /\ p_amount p = Some 0)) r.
+Proof. exact concrete_acceptance. Qed.
+Theorem C12_payment_new_zero_unknown_ua : forall n items la ms ot,
+  existsb transparent_tc (map (fun it => Z.of_N (fst it)) items) = true ->
+  forallb (fun tc => negb (shielded_tc tc)) (map (fun it => Z.of_N (fst it)) items) = true ->
+  payment_new M10.addr c_can_memo c_t_only (M10.AUni n items) (Some 0) None la ms ot = Err PZeroTransparent.
+Proof. exact payment_new_zero_unknown_ua. Qed.
+
 (** ** Bridge: on every well-formed case (table entries satisfy the oracle hypotheses, requests satisfy the
     type invariants), agreement of the implementation with the model implies the property on the
     implementation's outcome - for all ten case constructors. *)
